@@ -100,7 +100,10 @@ def expected_dump(scn):
 def norm_entry(e):
     if "values" not in e:
         return e
-    return {"variant": e.get("variant"), "values": e["values"]}
+    r = {"variant": e.get("variant"), "values": e["values"]}
+    if "typed" in e:
+        r["typed"] = e["typed"]
+    return r
 
 
 def flatten(dump):
@@ -112,6 +115,13 @@ def flatten(dump):
     for ix in dump.get("indexes", []):
         b = "index/%s" % ix.get("name")
         out[b + "/res"] = ix.get("res")
+        # what the typed property builders return (real dumps only), whether or not the generic builder could be made
+        for i, t in enumerate(ix.get("typedEntries", []), ix.get("entriesFrom", 0)):
+            if isinstance(t, dict) and "panic" not in t:
+                for n, v in t.items():
+                    out["%s/%d/typed/%s" % (b, i, n)] = "ERR" if isinstance(v, str) else json.dumps(v, sort_keys=True)
+            else:
+                out["%s/%d/typed" % (b, i)] = "ERR"
         if ix.get("res") == "ok":
             out[b + "/count"] = ix.get("count")
             out[b + "/offset"] = ix.get("offset")
@@ -147,6 +157,11 @@ def diff(expected, got):
         a, b = fe.get(k, "<absent>"), fg.get(k, "<absent>")
         if k.endswith("/bytes") and (a is None or b is None):
             continue
+        if "/typed/" in k and k not in fe:
+            # the expected side is computed from the scenario: what the typed builders return must be what the generic builder returns
+            a = fg.get(k.replace("/typed/", "/"), "<absent>")
+            if a == "<absent>":
+                continue            # (the generic builder gave nothing to compare with: judged elsewhere)
         if a != b:
             res.append((k, a, b))
     return res
